@@ -134,7 +134,17 @@ auto withStr(Src k, const std::string& bytes, Arena& arena, F&& f) -> decltype(f
     case Src::CPtr:
       return f(scratch);
     case Src::UCPtr:
-      return f(reinterpret_cast<unsigned char*>(scratch));
+      // the other character types, const and not (all copied; which one is a function of the bytes)
+      switch ((hashStr(bytes) >> 7) & 3) {
+        case 0:
+          return f(reinterpret_cast<unsigned char*>(scratch));
+        case 1:
+          return f(reinterpret_cast<const unsigned char*>(scratch));
+        case 2:
+          return f(reinterpret_cast<signed char*>(scratch));
+        default:
+          return f(reinterpret_cast<const signed char*>(scratch));
+      }
     case Src::CArr: {
       char arr[64];
       memcpy(arr, scratch, n + 1);
@@ -160,8 +170,25 @@ auto withStr(Src k, const std::string& bytes, Arena& arena, F&& f) -> decltype(f
     }
     case Src::Sv:
       return f(std::string_view(scratch, n));
-    case Src::JsC:
+    case Src::JsC: {
+      if (((hashStr(bytes) >> 11) & 3) == 0) {
+        // a JsonString that says "linked" but does not end at a NUL (a window on a longer buffer): its size can only
+        // be honoured by copying, and the buffer goes away like every other scratch block
+        char* wide = static_cast<char*>(malloc(n + 5));
+        memcpy(wide, bytes.data(), n);
+        memcpy(wide + n, "~#!?", 5);
+        struct WideScribble {
+          char* p;
+          size_t n;
+          ~WideScribble() {
+            memset(p, 0xEE, n + 5);
+            free(p);
+          }
+        } g5{wide, n};
+        return f(ArduinoJson::JsonString(wide, n, ArduinoJson::JsonString::Linked));
+      }
       return f(ArduinoJson::JsonString(scratch, n, ArduinoJson::JsonString::Copied));
+    }
     case Src::AStr: {
       ::String* s = new ::String(scratch);
       struct AScribble {
